@@ -496,3 +496,179 @@ Section StateProofs.
     rewrite String.eqb_refl. intros E. inversion E. contradiction.
   Qed.
 End StateProofs.
+
+(* ------------------------------------------------------------------ collect, sort, then use *)
+Lemma filter_perm : forall (f : string -> bool) l1 l2, Permutation l1 l2 -> Permutation (filter f l1) (filter f l2).
+Proof.
+  intros f l1 l2 P. induction P; simpl.
+  - constructor.
+  - destruct (f x); [constructor|]; assumption.
+  - destruct (f x), (f y); try apply Permutation_refl. apply perm_swap.
+  - eapply Permutation_trans; eassumption.
+Qed.
+
+Lemma sorted_range_oracle_independent_l : forall (A : Type) (kp : string -> bool) (body : A -> string -> A) init keys,
+  oracle_independent keys (sorted_range kp body init).
+Proof.
+  intros A kp body init keys o1 o2 P1 P2. unfold sorted_range. f_equal.
+  apply ssort_perm_eq. apply filter_perm.
+  eapply Permutation_trans; [apply Permutation_sym; exact P1 | exact P2].
+Qed.
+
+(* what it computes: the body folded over THE sorted arrangement of the kept keys *)
+Lemma sorted_range_spec_l : forall (A : Type) (kp : string -> bool) (body : A -> string -> A) init order,
+  exists l, Permutation (filter kp order) l /\ ssorted l /\ sorted_range kp body init order = fold_left body l init.
+Proof.
+  intros A kp body init order. exists (ssort (filter kp order)). split; [apply ssort_perm|]. split; [apply ssort_sorted|reflexivity].
+Qed.
+
+(* ---- preferred order first, the rest sorted *)
+Lemma dedup_in_perm : forall o1 o2 p seen, Permutation o1 o2 -> dedup_in o1 seen p = dedup_in o2 seen p.
+Proof.
+  intros o1 o2 p. induction p as [|k r IH]; intros seen P; simpl; auto.
+  rewrite (existsb_perm _ _ _ P).
+  destruct (existsb (String.eqb k) o2 && negb (existsb (String.eqb k) seen)); [f_equal|]; apply IH; auto.
+Qed.
+
+Lemma preferred_then_sorted_oracle_independent_l : forall preferred keys,
+  oracle_independent keys (preferred_then_sorted preferred).
+Proof.
+  intros preferred keys o1 o2 P1 P2.
+  assert (P : Permutation o1 o2) by (eapply Permutation_trans; [apply Permutation_sym; exact P1 | exact P2]).
+  unfold preferred_then_sorted. rewrite (dedup_in_perm o1 o2 preferred [] P). f_equal.
+  apply ssort_perm_eq. apply filter_perm. exact P.
+Qed.
+
+Lemma existsb_eqb_In : forall k l, existsb (String.eqb k) l = true <-> In k l.
+Proof.
+  intros k l. rewrite existsb_exists. split.
+  - intros [x [I E]]. apply String.eqb_eq in E. subst. exact I.
+  - intros I. exists k. split; auto. apply String.eqb_refl.
+Qed.
+
+Lemma dedup_in_spec : forall keys p seen,
+  NoDup (dedup_in keys seen p) /\
+  (forall k, In k (dedup_in keys seen p) <-> In k p /\ In k keys /\ ~ In k seen).
+Proof.
+  intros keys. induction p as [|x r IH]; intros seen; simpl.
+  - split; [constructor|]. intros k; split; [intros []| intros [[] _]].
+  - destruct (existsb (String.eqb x) keys && negb (existsb (String.eqb x) seen)) eqn:E.
+    + apply andb_true_iff in E. destruct E as [E1 E2]. apply existsb_eqb_In in E1.
+      apply negb_true_iff in E2.
+      assert (NS : ~ In x seen) by (intro I; apply existsb_eqb_In in I; congruence).
+      destruct (IH (x :: seen)) as [ND M]. split.
+      * constructor; auto. intro I. apply M in I. destruct I as [_ [_ N]]. apply N. left; reflexivity.
+      * intros k; split.
+        -- intros [K|K]; [subst; auto|]. apply M in K. destruct K as [K1 [K2 K3]].
+           split; [right; auto|]. split; auto. intro I. apply K3. right; auto.
+        -- intros [[K|K] [K2 K3]]; [left; auto|].
+           destruct (string_dec x k) as [->|NE]; [left; auto|].
+           right. apply M. split; auto. split; auto. intros [I|I]; [congruence | auto].
+    + destruct (IH seen) as [ND M]. split; auto.
+      intros k; split.
+      * intros K. apply M in K. destruct K as [K1 [K2 K3]]. auto.
+      * intros [[K|K] [K2 K3]]; [|apply M; auto].
+        subst k. exfalso. apply andb_false_iff in E. destruct E as [E|E].
+        -- apply existsb_eqb_In in K2. congruence.
+        -- apply negb_false_iff in E. apply existsb_eqb_In in E. auto.
+Qed.
+
+Lemma filter_partition_perm : forall (f : string -> bool) l,
+  Permutation l (filter f l ++ filter (fun k => negb (f k)) l).
+Proof.
+  intros f. induction l as [|x l IH]; simpl; [constructor|].
+  destruct (f x); simpl.
+  - constructor. exact IH.
+  - eapply Permutation_trans; [apply perm_skip; exact IH|]. apply Permutation_middle.
+Qed.
+
+(* every key of the map is printed exactly once *)
+Lemma preferred_then_sorted_permutation_l : forall preferred order, NoDup order ->
+  Permutation order (preferred_then_sorted preferred order).
+Proof.
+  intros preferred order ND. unfold preferred_then_sorted.
+  set (first := dedup_in order [] preferred).
+  destruct (dedup_in_spec order preferred []) as [NDf M]. fold first in NDf, M.
+  eapply Permutation_trans; [apply (filter_partition_perm (fun k => existsb (String.eqb k) first))|].
+  apply Permutation_app.
+  - apply NoDup_Permutation; auto.
+    + apply NoDup_filter. exact ND.
+    + intros k. rewrite filter_In. rewrite existsb_eqb_In. split.
+      * intros [_ I]. exact I.
+      * intros I. split; auto. apply M in I. tauto.
+  - apply ssort_perm.
+Qed.
+
+(* the preferred keys keep their relative order: the result starts with them *)
+Lemma preferred_then_sorted_prefix_l : forall preferred order, NoDup preferred -> (forall k, In k preferred -> In k order) ->
+  exists rest, preferred_then_sorted preferred order = preferred ++ rest.
+Proof.
+  intros preferred order ND Sub. unfold preferred_then_sorted.
+  assert (H : forall p seen, NoDup p -> (forall k, In k p -> In k order /\ ~ In k seen) -> dedup_in order seen p = p).
+  { induction p as [|x r IH]; intros seen NDp Hp; simpl; auto.
+    destruct (Hp x (or_introl eq_refl)) as [I N].
+    apply existsb_eqb_In in I. rewrite I.
+    assert (E : existsb (String.eqb x) seen = false).
+    { destruct (existsb (String.eqb x) seen) eqn:E; auto. apply existsb_eqb_In in E. contradiction. }
+    rewrite E. simpl. f_equal. inversion NDp; subst. apply IH; auto.
+    intros k K. destruct (Hp k (or_intror K)) as [K1 K2]. split; auto.
+    intros [->|K3]; auto. }
+  rewrite (H preferred [] ND); [eexists; reflexivity|].
+  intros k K. split; auto.
+Qed.
+
+(* ---- pick the attribute of a kind *)
+Lemma pick_last_acc : forall (is_kind : string -> bool) (l : list string) (acc : option string),
+  fold_left (fun a k => if is_kind k then Some k else a) l acc =
+  match fold_left (fun a k => if is_kind k then Some k else a) l None with Some k => Some k | None => acc end.
+Proof.
+  intros is_kind. induction l as [|x l IH]; intros acc; simpl; auto.
+  destruct (is_kind x).
+  - rewrite (IH (Some x)). destruct (fold_left _ l None); reflexivity.
+  - apply IH.
+Qed.
+
+Lemma pick_last_some : forall (is_kind : string -> bool) l k, pick_last is_kind l = Some k -> In k l /\ is_kind k = true.
+Proof.
+  intros is_kind. unfold pick_last. induction l as [|x l IH]; simpl; intros k H; [discriminate|].
+  destruct (is_kind x) eqn:E.
+  - rewrite pick_last_acc in H. destruct (fold_left _ l None) eqn:F.
+    + destruct (IH _ H) as [I K]. split; auto.
+    + inversion H; subst. split; auto.
+  - destruct (IH _ H) as [I K]. split; auto.
+Qed.
+
+Lemma pick_last_none : forall (is_kind : string -> bool) l, pick_last is_kind l = None <-> existsb is_kind l = false.
+Proof.
+  intros is_kind. unfold pick_last. induction l as [|x l IH]; simpl; [tauto|].
+  destruct (is_kind x) eqn:E; simpl.
+  - rewrite pick_last_acc. destruct (fold_left _ l None); split; intros; discriminate.
+  - exact IH.
+Qed.
+
+Lemma unique_pick_oracle_independent_l : forall (is_kind : string -> bool) keys,
+  (forall a b, In a keys -> In b keys -> is_kind a = true -> is_kind b = true -> a = b) ->
+  oracle_independent keys (pick_last is_kind).
+Proof.
+  intros is_kind keys U o1 o2 P1 P2.
+  destruct (pick_last is_kind o1) as [a|] eqn:E1, (pick_last is_kind o2) as [b|] eqn:E2; auto.
+  - destruct (pick_last_some _ _ _ E1) as [I1 K1]. destruct (pick_last_some _ _ _ E2) as [I2 K2].
+    f_equal. apply U; auto.
+    + eapply Permutation_in; [apply Permutation_sym; exact P1 | exact I1].
+    + eapply Permutation_in; [apply Permutation_sym; exact P2 | exact I2].
+  - exfalso. apply pick_last_none in E2. destruct (pick_last_some _ _ _ E1) as [I1 K1].
+    assert (P : Permutation o1 o2) by (eapply Permutation_trans; [apply Permutation_sym; exact P1 | exact P2]).
+    rewrite <- (existsb_perm _ _ _ P) in E2.
+    assert (existsb is_kind o1 = true) by (apply existsb_exists; exists a; auto). congruence.
+  - exfalso. apply pick_last_none in E1. destruct (pick_last_some _ _ _ E2) as [I2 K2].
+    assert (P : Permutation o1 o2) by (eapply Permutation_trans; [apply Permutation_sym; exact P1 | exact P2]).
+    rewrite (existsb_perm _ _ _ P) in E1.
+    assert (existsb is_kind o2 = true) by (apply existsb_exists; exists b; auto). congruence.
+Qed.
+
+(* without uniqueness the pick depends on the order: two keys of the kind, two orders, two answers *)
+Lemma pick_last_order_dependent_l : forall (is_kind : string -> bool) a b, a <> b -> is_kind a = true -> is_kind b = true ->
+  pick_last is_kind [a; b] <> pick_last is_kind [b; a].
+Proof.
+  intros is_kind a b NE Ka Kb. unfold pick_last. simpl. rewrite Ka, Kb. intro H. inversion H. congruence.
+Qed.
